@@ -1,3 +1,34 @@
-From VZ Require Import Base.Prelude Model.Service.
-Theorem C02_placeholder : True. Proof. exact I. Qed.
-Print Assumptions C02_placeholder.
+(* C02 — suggest: exact count, sticky per worker, fresh ids.  Statements only. *)
+From VZ Require Import Base.Prelude Model.Service Proofs.ServiceP.
+
+(* every new trial is numbered max+1: creating it always succeeds, appends it, its id is larger than every id in the
+   study and the maximum grows by exactly one (so ids increase with creation order) *)
+Theorem C02_fresh_ids : forall s k n t,
+  get_node k (nodes s) = Some n -> t_id t = (max_id (n_trials n) + 1)%N ->
+  exec (CCreateTrial k t) s = (upd s k (mkN (n_study n) (n_trials n ++ [t]) (n_ops n) (n_es n)), Ok RUnit) /\
+  max_id (n_trials n ++ [t]) = (max_id (n_trials n) + 1)%N /\
+  (forall t0, In t0 (n_trials n) -> (t_id t0 < t_id t)%N).
+Proof. exact create_fresh. Qed.
+Print Assumptions C02_fresh_ids.
+
+Theorem C02_max_id_bounds_all : forall l t, In t l -> (t_id t <= max_id l)%N.
+Proof. exact max_id_bound. Qed.
+Print Assumptions C02_max_id_bounds_all.
+
+(* an unfinished operation of the same worker is returned as it is: nothing is created, no algorithm call *)
+Theorem C02_unfinished_operation_returned : forall s k n c count po o rest,
+  get_node k (nodes s) = Some n -> immutable (n_study n) = false ->
+  filter (fun o => negb (o_done o)) (filter (fun o => N.eqb (o_client o) c) (n_ops n)) = o :: rest ->
+  step s (SuggestTrials k c count, po) = (s, Done (RpOp o)).
+Proof. exact unfinished_returned. Qed.
+Print Assumptions C02_unfinished_operation_returned.
+
+(* the sticky / three-source / surplus statements are decided by correspondence + monitor (the loops of SuggestTrials
+   are modelled and executed, not yet proved): *)
+Definition C02_sticky_full : Prop := forall s k n c count po,
+  get_node k (nodes s) = Some n -> immutable (n_study n) = false ->
+  filter (fun o => negb (o_done o)) (filter (fun o => N.eqb (o_client o) c) (n_ops n)) = [] ->
+  count <= length (filter (fun t => tstate_eqb (t_state t) ACTIVE && N.eqb (t_client t) c) (n_trials n)) ->
+  exists o s', step s (SuggestTrials k c count, po) = (s', Done (RpOp o)) /\
+    o_trials o = firstn count (filter (fun t => tstate_eqb (t_state t) ACTIVE && N.eqb (t_client t) c) (n_trials n)) /\
+    (exists n', get_node k (nodes s') = Some n' /\ n_trials n' = n_trials n).
